@@ -1,19 +1,19 @@
 CONSTANTS
   MinKeys = 0
   MaxKeys = 2
-  NI = 3
+  NI = 2
   MaxRF = 2
   Shape = "any"
   Grain = "atomic"
   Gate = FALSE
   EmptyFix = TRUE
   AllowCancel = TRUE
-  EarlyExits = FALSE
+  EarlyExits = TRUE
   MaxConc = 3
-  Spawn = "go"
+  Spawn = "deferred"
   Record = FALSE
-SPECIFICATION FairSpec
+SPECIFICATION Spec
 INVARIANTS TypeOK SingleSend ReturnsOnce SuccessMeansQuorum ErrorMeansNoQuorum ErrorIsReal ChannelErrorIsReal
            EarlyError LastAnswerError DecidedIsDelivered SuccessDelivered NoHang CalledExactly CleanupOnceAfterAll
-PROPERTIES Termination
+PROPERTIES CleanupStable
 CHECK_DEADLOCK TRUE
